@@ -67,6 +67,8 @@ def _goal(rng, o, callees, vars_, depth=2):
     if o.eqneq and r < 0.22:
         op = '=' if rng.random() < 0.7 else '\\='
         lhs = V(rng.choice(vars_)) if vars_ and rng.random() < 0.8 else rand_sterm(rng, o, vars_, 1)
+        if vars_ and rng.random() < 0.3:
+            return ['call', op, [lhs, V(rng.choice(vars_))]]      # aliasing of two variables
         return ['call', op, [lhs, rand_sterm(rng, o, vars_, depth)]]
     if r < 0.27:
         return ['true']
@@ -75,6 +77,13 @@ def _goal(rng, o, callees, vars_, depth=2):
     if not callees:
         return ['true']
     name, ar = rng.choice(callees)
+    if name in ('mem', 'app', 'len'):
+        lst = ['list', [A(rng.choice(ATOMS)) for _ in range(rng.randrange(0, 4))]]
+        x = V(rng.choice(vars_)) if vars_ else V('_')
+        y = V(rng.choice(vars_)) if vars_ else V('_')
+        if name == 'mem': return ['call', name, [x, lst]]
+        if name == 'app': return ['call', name, rng.choice([[x, y, lst], [lst, ['list', [A('c')]], x]])]
+        return ['call', name, [lst, x]]
     args = []
     for _ in range(ar):
         if vars_ and rng.random() < 0.7:
@@ -84,22 +93,42 @@ def _goal(rng, o, callees, vars_, depth=2):
     return ['call', name, args]
 
 def _meta(rng, o, callees, vars_):
-    g = _goal(rng, o, callees, vars_)
+    """a goal using call/N, once/1 or findall/3; the goal term is written inline or arrives in a variable"""
+    g = None
+    for _ in range(4):
+        g = _goal(rng, o, callees, vars_)
+        if g[0] == 'call':
+            break
     if g[0] != 'call':
-        g = ['call', 'true_0', []] if False else _goal(rng, o, callees, vars_)
-    if g[0] != 'call' or g[1] in ('=', '\\='):
         return g
     goal_term = ['fun', g[1], g[2]] if g[2] else A(g[1])
+    pre = None
+    if rng.random() < 0.4:
+        gv = V(rng.choice(['G', 'G2']))
+        pre = ['call', '=', [gv, goal_term]]
+        if rng.random() < 0.3:
+            gv2 = V('G3')
+            pre = ['and', pre, ['call', '=', [gv2, gv]]]
+            gv = gv2
+        gt = gv
+    else:
+        gt = goal_term
     r = rng.random()
     if r < 0.3:
-        return ['call', 'once', [goal_term]]
-    if r < 0.6:
-        tmpl = V(rng.choice(vars_)) if vars_ else A('x')
-        return ['call', 'findall', [tmpl, goal_term, V(rng.choice(vars_)) if vars_ else V('_')]]
-    if r < 0.8 and g[2]:
+        m = ['call', 'once', [gt]]
+    elif r < 0.6:
+        tmpl = rng.choice([V(rng.choice(vars_)), F('t', V(rng.choice(vars_)), V(rng.choice(vars_)))]) if vars_ else A('x')
+        m = ['call', 'findall', [tmpl, gt, V(rng.choice(vars_ + ['L'])) if vars_ else V('L')]]
+    elif r < 0.8 and g[2] and g[1] not in ('=', '\\='):
         k = rng.randrange(1, len(g[2]) + 1)
-        return ['call', 'call', [['fun', g[1], g[2][:-k]] if g[2][:-k] else A(g[1])] + g[2][-k:]]
-    return ['call', 'call', [goal_term]]
+        part = ['fun', g[1], g[2][:-k]] if g[2][:-k] else A(g[1])
+        if pre is not None:
+            pre = ['call', '=', [V('G'), part]]
+            part = V('G')
+        m = ['call', 'call', [part] + g[2][-k:]]
+    else:
+        m = ['call', 'call', [gt]]
+    return ['and', pre, m] if pre is not None else m
 
 def rand_body(rng, o, callees, vars_, size, opaque=False, top=True):
     if size <= 1:
@@ -190,10 +219,11 @@ def gen_program(rng, o):
                     args.append(V('Q%d' % rng.randrange(0, max(1, ar))))
                 else:
                     args.append(rand_sterm(rng, o, ['Q0', 'Q1'], 2, anon=False))
-            if name in ('mem', 'app', 'len') and rng.random() < 0.8:
-                lst = ['list', [rand_atom(rng, o) for _ in range(rng.randrange(0, 4))]]
-                if name == 'mem': args = [V('Q0'), lst]
-                elif name == 'app': args = rng.choice([[V('Q0'), V('Q1'), lst], [lst, ['list', [A('c')]], V('Q0')]])
+            if name in ('mem', 'app', 'len'):
+                # only modes in which the recursion is bounded by a list of known length
+                lst = ['list', [rand_atom(rng, o) if rng.random() < 0.7 else V('Q1') for _ in range(rng.randrange(0, 4))]]
+                if name == 'mem': args = [rng.choice([V('Q0'), A('a'), F('f', V('Q0'))]), lst]
+                elif name == 'app': args = rng.choice([[V('Q0'), V('Q2'), lst], [lst, ['list', [A('c')]], V('Q0')], [lst, V('Q0'), V('Q2')]])
                 else: args = [lst, V('Q0')]
             queries.append([name, args])
     return {'clauses': clauses, 'queries': queries}
